@@ -173,6 +173,14 @@ def tlc_stats(out):
     return int(m.group(1)), int(m.group(2)), int(d.group(1)) if d else 0
 
 
+def tlc_progress(out):
+    """(generated, distinct) of the last progress report of a run that was stopped by its time limit."""
+    ms = re.findall(r"Progress\(\d+\)[^\n]*?([\d,]+) states generated[^\n]*?([\d,]+) distinct states found", out)
+    if not ms:
+        return None
+    return int(ms[-1][0].replace(",", "")), int(ms[-1][1].replace(",", ""))
+
+
 def _tla_unescape(s):
     return s.replace('\\"', '"').replace("\\\\", "\\")
 
